@@ -168,7 +168,8 @@ pub fn run_c11(out: &mut Out) {
         }
         guard_case(out, &id.clone(), "C11:panic", (m * n) as u64, |out| {
             let mut last = 0.0f32;
-            for (j, t) in [0.0, 1.0, 10.0, 100.0, 1000.0].iter().enumerate() {
+            // separations well above the sampling spread of the chain means (<= 1): there B is increasing in t
+            for (j, t) in [0.0, 10.0, 100.0, 1000.0].iter().enumerate() {
                 let cols = vec![base.iter().enumerate().map(|(c, s)| s.iter().map(|x| x + if c % 2 == 1 { *t } else { 0.0 }).collect()).collect::<Vec<Vec<f64>>>()];
                 let a = array_of(&cols, m, n);
                 let (r, _) = split_rhat_mean_ess(a.view());
